@@ -107,7 +107,7 @@ Definition queue := list qitem.
 
 (* BinaryHeap::pop: WHICH pending element comes out is a parameter (`choose` returns a position;
    past the end means the last one), so that statements hold for any heap order *)
-Fixpoint take_at {A} (i : nat) (q : list A) : option (A * list A) :=
+Fixpoint take_at {A} (i : nat) (q : list A) {struct q} : option (A * list A) :=
   match q with
   | [] => None
   | x :: r => match i with
